@@ -373,12 +373,23 @@ class Engine:
             elif p[0] == 'i':
                 assert isinstance(v, VecV), v
                 i = p[1]
-                if v.pos is not None: self.tracked_access(v, i, st)
+                hv = None
+                if v.pos is not None:
+                    # embedded mode: a read outside the modelled component sees an arbitrary (unconstrained) element
+                    if getattr(self, 'havoc_elem', None) is not None:
+                        hk = ('c', i.v) if i.conc() else i.v.get_id()
+                        cache = self.__dict__.setdefault('_havoc', {})
+                        if hk not in cache: cache[hk] = self.havoc_elem(len(cache))
+                        hv = cache[hk]
+                    else: self.tracked_access(v, i, st)
                 if i.conc() and v.pos is None:
                     v = v.el[i.v]
                 else:
                     rest = path[k+1:]
                     acc = None
+                    if hv is not None:
+                        try: acc = self.get(hv, rest, st)
+                        except AbsentVariant: acc = None
                     for j in range(len(v.el) - 1, -1, -1):
                         if v.el[j] is UNINIT: continue
                         try:
